@@ -43,15 +43,33 @@ def key_canonicity(rep: Report, prog: Program) -> None:
             if isinstance(p, ast.Call) and isinstance(p.func, ast.Name) and p.func.id in ("sorted", "frozenset"):
                 found = True
             p = getattr(p, "_parent", None)
+        if not found:
+            # `pairs = list(factors.items())` followed by an in-place `pairs.sort(..)`
+            st = c
+            while st is not None and not isinstance(st, ast.stmt):
+                st = getattr(st, "_parent", None)
+            if isinstance(st, ast.Assign) and len(st.targets) == 1 and isinstance(st.targets[0], ast.Name):
+                lname = st.targets[0].id
+                found = any(isinstance(x, ast.Call) and isinstance(x.func, ast.Attribute) and x.func.attr == "sort"
+                            and isinstance(x.func.value, ast.Name) and x.func.value.id == lname for x in ast.walk(fn))
         normalised = normalised and found
     # an ordering key that can tie leaves tied factors in insertion order: a*b and b*a get different keys
-    for c in [n for n in ast.walk(fn) if isinstance(n, ast.Call) and isinstance(n.func, ast.Name) and n.func.id == "sorted"]:
+    for c in [n for n in ast.walk(fn) if isinstance(n, ast.Call) and ((isinstance(n.func, ast.Name) and n.func.id == "sorted")
+                                                                 or (isinstance(n.func, ast.Attribute) and n.func.attr == "sort"))]:
         kw = {k.arg: k.value for k in c.keywords}
         if "key" not in kw:
             continue
         k = kw["key"]
-        body = k.body if isinstance(k, ast.Lambda) else None
-        injective = body is not None and any(isinstance(x, ast.Call) and isinstance(x.func, ast.Name) and x.func.id == "id" for x in ast.walk(body))
+        bodies: List[ast.AST] = []
+        if isinstance(k, ast.Lambda):
+            bodies = [k.body]
+        else:
+            # a named key function (module level, or a method / staticmethod of the class)
+            nm = k.id if isinstance(k, ast.Name) else (k.attr if isinstance(k, ast.Attribute) else None)
+            for q_, f_ in prog.functions.items():
+                if nm and f_.name == nm and (f_.cls in (None, "Unit")) and f_.module == "":
+                    bodies += [r.value for r in ast.walk(f_.node) if isinstance(r, ast.Return) and r.value is not None]
+        injective = bool(bodies) and all(any(isinstance(x, ast.Call) and isinstance(x.func, ast.Name) and x.func.id == "id" for x in ast.walk(b)) for b in bodies)
         rep.check("R02.1", "Unit._build_key:order-key", injective,
                   f"the factors of the intern key are ordered by `{ast.unparse(k)[:60]}`, which is not the identity of the factor: two different base units can "
                   "tie (symbols that differ only in case, equal names), a stable sort then keeps operand order, and a*b and b*a intern separately",
